@@ -9,6 +9,10 @@ static EPOCH: OnceLock<Instant> = OnceLock::new();
 /// Monotonic milliseconds since first call. Safe to use for deadline arithmetic.
 #[must_use]
 pub fn now_ms() -> u64 {
+    #[cfg(feature = "verif-hooks")]
+    if let Some(t) = crate::verif::clock_override() {
+        return t;
+    }
     EPOCH.get_or_init(Instant::now).elapsed().as_millis() as u64
 }
 
